@@ -41,11 +41,10 @@ def jtiList (F : Facts) (T : TokOf) (bl : Cache.C) (now : Int) (id : String) : C
   | some j => Cache.set F.se bl now j 1 F.blTTL
   | none => bl
 
-/-- `VerifyToken` -/
-def verify (F : Facts) (T : TokOf) (v : V) (now : Int) (id : String) : V × Bool :=
+/-- `VerifyToken`, given the limiter's decision `a` (new limiter state, admitted?) -/
+def verifyWith (F : Facts) (T : TokOf) (v : V) (now : Int) (id : String) (a : Limiter.L × Bool) : V × Bool :=
   let g := Cache.get F.se v.tc now id
   if g.2.isSome then ({ v with tc := g.1 }, true) else
-  let a := Limiter.allow F.r F.b v.lim now
   if !a.2 then (⟨g.1, v.bl, a.1⟩, false) else
   let b1 := Cache.get F.se v.bl now id
   if b1.2.isSome then (⟨g.1, b1.1, a.1⟩, false) else
@@ -53,6 +52,10 @@ def verify (F : Facts) (T : TokOf) (v : V) (now : Int) (id : String) : V × Bool
   if b2.2.isSome then (⟨g.1, b2.1, a.1⟩, false) else
   if !T.scratch id now then (⟨g.1, b2.1, a.1⟩, false) else
   (⟨Cache.set F.se g.1 now id 1 (T.exp id - now), jtiList F T b2.1 now id, a.1⟩, true)
+
+/-- `VerifyToken` -/
+def verify (F : Facts) (T : TokOf) (v : V) (now : Int) (id : String) : V × Bool :=
+  verifyWith F T v now id (Limiter.allow F.r F.b v.lim now)
 
 /-- `RevokeToken` -/
 def revoke (F : Facts) (T : TokOf) (v : V) (now : Int) (id : String) : V :=
